@@ -314,7 +314,7 @@ PROPS = {
     ),
     "C19": dict(
         modules=["SpatialId.Props.C19"],
-        families=[("chgExt,mrgExt,nN,ovEA,ovSA,tiles,qv,points,geom,shift,notation,altkey,sets,chgSp,mrgSp,nbr,line,bitalt,quadkey,vec,vecnum,proj,ovE,ovS,reject", 120, 1000, "conc")],
+        families=[("chgExt,mrgExt,nN,ovEA,ovSA,tiles,qv,points,geom,shift,notation,altkey,sets,chgSp,mrgSp,nbr,line,bitalt,quadkey,vec,vecnum,proj,ovE,ovS,reject,combLattice", 120, 1000, "conc")],
         gen=True,
         trusted_base=["/verif/extract (go/ast): table of package-level vars and of their syntactic non-read uses, regenerated from "
                       "/repo on every run", "Go memory model; pinned third-party modules are not analysed",
